@@ -93,6 +93,9 @@ func judgeOracles(o fsOpts, hist *h.History, m []h.ModelStep, res *result) {
 		}
 		for _, pm := range st.OracleMsgs {
 			parts := strings.SplitN(pm, "\x00", 2)
+			if !has(o.oracles, parts[0]) {
+				continue
+			}
 			f := OracleFail{Property: parts[0], Hist: hist.ID, Step: i, What: parts[1], Triggers: append([]string{}, fired...),
 				Calls: append([]string{}, calls...)}
 			if i < divergedAt {
